@@ -230,7 +230,7 @@ fn random(ctx: &mut Ctx, n: usize) {
 
 fn run(ctx: &mut Ctx) {
     exhaustive(ctx, ctx.tier.of(3, 4));
-    random(ctx, ctx.tier.of(15_000, 300_000));
+    random(ctx, ctx.tier.of(100_000, 1_000_000));
 }
 
 fn finish(m: &Merged, tier: Tier) -> Finish {
